@@ -198,7 +198,9 @@ def run(facts, rep, tier):
         # the compared identifier is the crate name with '-' -> '_'
         ident_side = n["cond"]["l"] if "[" not in src(n["cond"]["l"]) else n["cond"]["r"]
         ident_name = src(ident_side)
-        inits = [src(x.get("init")) for x, _ in nodes(h["body"], "let") if x["pat"].get("k") == "bind" and x["pat"]["name"] == ident_name]
+        from lib import binding_let
+        bl_ = binding_let(h, ident_side)
+        inits = [src(bl_.get("init"))] if bl_ is not None and bl_.get("init") is not None else []
         norm_ok = any(ext_bind.get("crate_name", "\0") in s and ".replace('-', \"_\")" in s for s in inits)
         rep.ob("C13.D2", "malformed:crate-ident-mismatch", norm_ok and ext_bind.get("path", "\0") in cond, "`if %s { return None }` with %s = %s" % (cond, ident_name, inits[:1]), n.get("sp"))
     else:
@@ -267,9 +269,10 @@ def run(facts, rep, tier):
     for a in eff_args:
         for x, _ in walk(a):
             if x.get("k") == "path" and x.get("res") == "local":
-                for n, _ in nodes(h["body"], "let"):
-                    if n["pat"].get("k") == "bind" and n["pat"]["name"] == x["path"] and pb and pb in src(n.get("init")):
-                        pl = n
+                from lib import binding_let
+                n = binding_let(h, x)
+                if n is not None and n["pat"].get("k") == "bind" and pb and pb in src(n.get("init")):
+                    pl = n
     if rep.floor("C13.W2", "parameter conversion feeding the native constructor", 1 if pl else 0, 1):
         chain = [x["name"] for x, _ in walk(pl["init"]) if x.get("k") == "mcall" and not contains_closure_ancestor(pl["init"], x)]
         bad = [m for m in chain if m in ("rev", "sort", "sort_by", "skip", "take", "filter", "step_by", "dedup")]
